@@ -1,5 +1,5 @@
 """Analysis context: facts + shared derived structures."""
-import os, re
+import os, json, re
 from .facts import Facts, callee, strip_lt
 from .engine import Ctx
 from .callgraph import CallGraph, API_ROOTS
@@ -43,6 +43,12 @@ class RxCtx(Ctx):
                     if r and ("RefCell" in r and "borrow_mut" in r):
                         direct.add(b.path)
                 for i in range(1, b.argc + 1):
+                    if i == 1 and b.kind == "Closure":
+                        # the environment of an FnMut closure is passed as `&mut {closure}`: it mutates something
+                        # only if it captured something mutably
+                        ups = b.raw.get("upvars") or []
+                        if "&mut " not in strip_lt(json.dumps(ups)):
+                            continue
                     if strip_lt(b.locals[i]["ty"]).startswith("&mut "):
                         direct.add(b.path)
             # propagate to callers
